@@ -359,8 +359,13 @@ def finish(prop, spec, tier, seed, results, t0, builddir):
     }
     if not cov["samples"]:
         cov["samples"] = ["(no sample recorded)"]
-    os.makedirs(os.path.join(VERIF, "evidence"), exist_ok=True)
-    with open(os.path.join(VERIF, "evidence", prop + ".json"), "w") as fh:
+    # Self-validation runs against another tree (VERIF_REPO) must not overwrite
+    # the evidence that describes /repo.
+    evdir = os.path.join(VERIF, "evidence")
+    if os.path.realpath(REPO) != "/repo":
+        evdir = os.environ.get("VERIF_EVIDENCE_DIR", os.path.join(VERIF, "replays", "evidence-other-tree"))
+    os.makedirs(evdir, exist_ok=True)
+    with open(os.path.join(evdir, prop + ".json"), "w") as fh:
         json.dump(evidence, fh, indent=1, default=str)
         fh.write("\n")
 
